@@ -755,6 +755,7 @@ func checkC01(c *lib.Ctx) {
 			}
 		}
 		mc.compare(c, "c01")
+		xfMHCompare(c) // multi-handle histories through mh.run (c01_multi.go)
 		return
 	}
 
@@ -1073,4 +1074,5 @@ func checkC01(c *lib.Ctx) {
 		}
 	})
 	mc.compare(c, "c01")
+	xfMHCompare(c) // multi-handle histories through mh.run (c01_multi.go)
 }
